@@ -42,6 +42,9 @@ pub enum FaultCase {
     Proc(ProblemCase, u8),
     /// the same through `crustabri solve --external-sat-solver`
     Cli(ProblemCase, u8),
+    /// `Unknown` injected at every call position of LIST queries (1-3 arguments, possibly in several
+    /// components) on every static solver type that takes lists
+    LibList(crate::checks::multi::MultiCase),
 }
 
 pub struct Faults;
@@ -119,6 +122,67 @@ impl Faults {
             }
         }
         Ok(())
+    }
+
+    fn lib_list(&self, mc: &crate::checks::multi::MultiCase, rec: &mut Rec) -> CheckResult {
+        use crate::queries::{kind_for, SolverObj};
+        if mc.gc.g.n == 0 || mc.picks.is_empty() || mc.gc.g.n > 13 {
+            return Ok(());
+        }
+        let g = G::new(mc.gc.g.n, &mc.gc.g.att_usize());
+        let list = crate::checks::multi::resolve_picks(&g, &mc.gc.g.att, mc.mode % 3, &mc.picks);
+        rec.class(&format!("list-query-over-{}-components", g.components().len().min(4)));
+        macro_rules! go {
+            ($af:expr, $labels:expr) => {{
+                let refs: Vec<_> = list.iter().map(|a| &$labels[*a]).collect();
+                for q in [Q::DC, Q::DS] {
+                    for sem in crate::oracle::ALL_SEMS {
+                        if kind_for(q, sem) == crate::queries::Kind::Gr || (q == Q::DC && sem == crate::oracle::Sem::PR) {
+                            continue;
+                        }
+                        let encs = encodings_for(q, sem);
+                        let enc = encs[mc.choice.0 as usize % encs.len()];
+                        if !enc_feasible(enc, &mc.gc.g, &mc.gc.pres) {
+                            continue;
+                        }
+                        for cert in [false, true] {
+                            let run = |shared: &std::rc::Rc<Shared>| {
+                                guard(|| {
+                                    let mut s = SolverObj::new($af, kind_for(q, sem), enc, satwrap::factory(shared));
+                                    if q == Q::DC {
+                                        s.dc(&refs, cert).0
+                                    } else {
+                                        s.ds(&refs, cert).0
+                                    }
+                                })
+                            };
+                            let shared = Shared::new(satwrap::DEFAULT_CAP);
+                            if run(&shared).is_err() {
+                                // a clean run that unwinds is C07's business (or the call cap): nothing to inject into
+                                continue;
+                            }
+                            let k = shared.n_calls();
+                            for j in 1..=k {
+                                rec.eval();
+                                let shared = Shared::faulty(satwrap::DEFAULT_CAP, j);
+                                if let Ok(status) = run(&shared) {
+                                    return Err(Failure::new(
+                                        format!("C17/lib-list/{}-{}/{}/answer-produced-despite-unknown", q.name(), sem.name(), enc.name()),
+                                        format!("list {:?} (certificate requested: {}): Unknown injected at SAT call {} of {}; the query answered {}", list, cert, j, k, status),
+                                    ));
+                                }
+                            }
+                        }
+                    }
+                }
+                Ok(())
+            }};
+        }
+        match build(&mc.gc) {
+            Built::U(af, labels) => go!(&af, labels),
+            Built::S(af, labels) => go!(&af, labels),
+            Built::C(af, labels) => go!(&af, labels),
+        }
     }
 
     fn lib_dynamic(&self, case: &DynCase, rec: &mut Rec) -> CheckResult {
@@ -367,8 +431,12 @@ impl Prop for Faults {
         if std::env::var("VERIF_C17_ONLY").as_deref() == Ok("cli") {
             return (problem_case(6, true), 0u8..FAULT_KINDS.len() as u8).prop_map(|(p, k)| FaultCase::Cli(p, k)).boxed();
         }
+        let list = (prop_oneof![3 => gen::graph_multi(8), 1 => gen::graph(8)], gen::pres(8), 0u8..3, vec(any::<u16>(), 1..=3), any::<u64>())
+            .prop_filter("needs an argument", |(g, _, _, _, _)| g.n >= 1)
+            .prop_map(|(g, pres, mode, picks, c)| FaultCase::LibList(crate::checks::multi::MultiCase { gc: GraphCase { g, pres }, mode, picks, choice: (c, 0) }));
         prop_oneof![
             50 => problem_case(nmax, false).prop_map(FaultCase::Lib),
+            8 => list,
             25 => dynamic,
             20 => (problem_case(7, false), 0u8..FAULT_KINDS.len() as u8).prop_map(|(p, k)| FaultCase::Proc(p, k)),
             5 => (problem_case(6, true), 0u8..FAULT_KINDS.len() as u8).prop_map(|(p, k)| FaultCase::Cli(p, k)),
@@ -381,6 +449,7 @@ impl Prop for Faults {
     fn run(&self, case: &FaultCase, rec: &mut Rec) -> CheckResult {
         match case {
             FaultCase::Lib(pc) => self.lib(pc, rec),
+            FaultCase::LibList(mc) => self.lib_list(mc, rec),
             FaultCase::LibDynamic(dc) => self.lib_dynamic(dc, rec),
             FaultCase::Proc(pc, k) => self.proc(pc, *k, rec),
             FaultCase::Cli(pc, k) => self.cli(pc, *k, rec),
